@@ -240,6 +240,9 @@ func runFlock(a []string) {
 			} else {
 				os.Rename(dir+".gone", dir)
 			}
+		case "rmlock":
+			// the lock file is not part of the data: a directory copied by Backup, or a fresh one, has none
+			os.Remove(filepath.Join(dir, ".lock"))
 		case "logsum":
 			res = "ok " + logSum(dir)
 		default:
